@@ -363,7 +363,7 @@ func effectAMD64(in *Instr) (*Effect, error) {
 		}
 		e.Reads, e.Writes = []string{a[0].Reg}, []string{a[1].Reg}
 		return e, nil
-	case "MOVQ", "MOVL", "MOVW", "MOVB", "MOVD", "MOVBQZX", "MOVWQZX", "MOVLQZX":
+	case "MOVQ", "MOVL", "MOVW", "MOVB", "MOVD", "MOVBQZX", "MOVWQZX", "MOVLQZX", "MOVBLZX", "MOVWLZX", "MOVBWZX", "MOVBQSX", "MOVWQSX", "MOVLQSX", "MOVBLSX", "MOVWLSX", "MOVBWSX":
 		if len(a) != 2 {
 			return bad()
 		}
@@ -371,8 +371,8 @@ func effectAMD64(in *Instr) (*Effect, error) {
 		if op == "MOVD" {
 			w = 8
 		}
-		if strings.HasSuffix(op, "ZX") {
-			w = map[byte]int{'B': 1, 'W': 2, 'L': 4}[op[3]]
+		if strings.HasSuffix(op, "ZX") || strings.HasSuffix(op, "SX") {
+			w = map[byte]int{'B': 1, 'W': 2, 'L': 4}[op[3]] // the source width; the whole destination register is written
 		}
 		src, dst := a[0], a[1]
 		switch src.Kind {
@@ -387,7 +387,7 @@ func effectAMD64(in *Instr) (*Effect, error) {
 		switch dst.Kind {
 		case OReg:
 			e.Writes = append(e.Writes, dst.Reg)
-			if w < 4 && !strings.HasSuffix(op, "ZX") && !strings.HasPrefix(dst.Reg, "V") {
+			if w < 4 && !strings.HasSuffix(op, "ZX") && !strings.HasSuffix(op, "SX") && !strings.HasPrefix(dst.Reg, "V") {
 				e.Reads = append(e.Reads, dst.Reg) // partial register write keeps the upper bits
 			}
 		case OMem, OSym, OFP:
